@@ -55,6 +55,8 @@ def tags(spec, cfg=None):
     for c in spec.get("corners", []):  # corner features applied by lib/corners.py: "odd-quant/huge/activation" -> "corner:odd-quant/huge"
         parts = c.split("/")
         out.append("corner:" + "/".join(parts[:2] if parts[0] == "odd-quant" else parts[:1]))
+    if len(set(spec["outputs"])) < len(spec["outputs"]):
+        out.append("outputs-duplicate")
     consumed = set(t for o in spec["ops"] for t in o["inputs"])
     if any(t in consumed for t in spec["outputs"]):
         out.append("output-has-consumer")
